@@ -92,7 +92,8 @@ class EnvWatch:
         self.tmp.close()
         after = self._listing()
         self.new = sorted(k for k in after if k not in self.before)
-        self.mod = sorted(k for k in after if k in self.before and after[k] != self.before[k])
+        # (a file that was there before and is gone afterwards has been modified, too)
+        self.mod = sorted([k for k in after if k in self.before and after[k] != self.before[k]] + [k for k in self.before if k not in after])
         return False
 
 
@@ -237,7 +238,8 @@ def run_ops(ops, observe_env=False, tag=""):
             ev["sameObj"] = pair_state(o) == before
             out.append(ev)
         elif kind == "bulk":
-            _, entries, mode, vr, save = op
+            _, entries, mode, vr, save = op[:5]
+            how = op[5] if len(op) > 5 else "list"      # how the entries are handed over: list, tuple, or a one-shot iterator
             # an entry is given either as a plain JSON list of encoded components (-> tuple entry) or as one encoded value
             # {"t": [...]} / {"l": [...]} (-> tuple / LIST entry: the entry's own container type is part of the input)
             ents = [D(e) if isinstance(e, dict) else tuple(D(x) for x in e) for e in entries]
@@ -258,7 +260,8 @@ def run_ops(ops, observe_env=False, tag=""):
             try:
                 with EnvWatch(observe_env) as w:
                     kw = {"save_report": True} if save else {}
-                    res = make_readable_bulk(ents, mode=mode, very_readable=vr, **kw)
+                    arg = ents if how == "list" else tuple(ents) if how == "tuple" else iter(ents) if how == "iter" else (e_ for e_ in ents)
+                    res = make_readable_bulk(arg, mode=mode, very_readable=vr, **kw)
                 ev["dout"], ev["newFiles"], ev["modFiles"] = w.dout, w.new, w.mod
                 ev["argSame"] = repr(ents) == ents_before
                 import pairs as _pairs
